@@ -271,8 +271,14 @@ class CounterToken(Token, FileSystemEventHandler):
         self.watchedpath = str(path.absolute())
         self.watcher = ipcom().fswatch(self, self.path, recursive=True)
         logger.info("Watching %s", self.watchedpath)
-        if _verif.ACTIVE:
-            _verif.emit("tok.watching", available=self.available)
+
+        # Token files removed since the count above were removed unobserved
+        # (typically by the threads that count started for jobs that had
+        # already finished): count again now that the directory is watched
+        with self.lock, self.ipc_lock:
+            self._update()
+            if _verif.ACTIVE:
+                _verif.emit("tok.watching", available=self.available)
 
     def _update(self):
         """Update the state by reading all the information from disk
